@@ -857,6 +857,19 @@ def rule_stray(roles):
                 continue
             key = 'STRAY|%s|%s' % (b.name, vn)
             okk, why = r_errd.returns_failure_only(b, tb)
+            if not okk and vn not in ('Comma', 'Semicolon', 'EOF') and tb != t['otherwise']:
+                # a token kind the pinned language does not have (`null`): a new *literal* kind if its own arm builds
+                # nothing but a Literal node from it
+                others = set()
+                for v2, tb2 in list(tmap.items()) + [('otherwise', t['otherwise'])]:
+                    if tb2 != tb:
+                        others |= b.reachable_from(tb2)
+                mine = b.reachable_from(tb) - others
+                oks = [(bb2, rv) for bb2, i, pl, rv in b.assigns() if bb2 in mine and pl['l'] == 0 and not pl['p'] and rv['k'] == 'agg' and rv.get('variant') == 'Ok']
+                lit = [bb2 for bb2 in _ok_agg_blocks(b, 'Literal') if bb2 in mine]
+                if oks and len(lit) == len(oks):
+                    obs.append(ok('STRAY', key, 'a %s token in primary position is a literal of its own: its arm builds only a Literal node' % vn, b.where(tb)))
+                    continue
             if okk:
                 obs.append(ok('STRAY', key, 'a %s token in primary position reaches only failure returns' % vn, b.where(tb)))
             else:
